@@ -12,6 +12,7 @@
   object, is recorded with the virtual time: that is the output compared with the model.
 """
 import heapq
+import threading
 import time as _time
 
 from harness import core, implrun  # noqa: F401
@@ -33,6 +34,51 @@ class Stop(BaseException):
 
 class EventCap(BaseException):
     pass
+
+
+class HandlerAbort(BaseException):
+    pass
+
+
+class HandlerThread:
+    """A message handler running on its own thread (Ringing Room's messages are handled on the socket
+    thread, not on Wheatley's main thread).  Exactly one of {main thread, handler thread} runs at any
+    instant: the handler runs until it finishes or calls `sleep`, then hands back to the main thread;
+    a sleeping handler is resumed by the simulation when its wake-up time comes.  While a handler
+    sleeps the main thread goes on, and further messages wait (one socket thread)."""
+
+    def __init__(self, sim, fn):
+        self.sim = sim
+        self.fn = fn
+        self.go = threading.Semaphore(0)
+        self.back = threading.Semaphore(0)
+        self.done = False
+        self.exc = None
+        self.thread = threading.Thread(target=self._run, daemon=True)
+        self.thread.start()
+
+    def _run(self):
+        self.go.acquire()
+        try:
+            if not self.sim.aborting:
+                self.fn()
+        except HandlerAbort:
+            pass
+        except Exception as e:  # python-socketio logs and carries on
+            self.exc = e
+        finally:
+            self.done = True
+            self.back.release()
+
+    def resume(self):          # called on the main thread
+        self.go.release()
+        self.back.acquire()
+
+    def suspend(self):         # called on the handler thread, inside sleep()
+        self.back.release()
+        self.go.acquire()
+        if self.sim.aborting:
+            raise HandlerAbort()
 
 
 def msg_to_socket(m):
@@ -151,6 +197,9 @@ class Sim:
         self.nevents = 0
         self.connect_urls = []
         self.strikes = []        # (t, bell, by) every strike accepted by the server
+        self.handler = None      # the handler thread that is running or asleep (None: socket thread idle)
+        self.deferred = []       # messages that arrived while it was asleep
+        self.aborting = False
         for ev in sc.get("events", []):
             self.schedule_external(ev)
 
@@ -159,6 +208,12 @@ class Sim:
         return self.now
 
     def sleep(self, d):
+        h = self.handler
+        if h is not None and threading.current_thread() is h.thread:
+            # a handler goes to sleep: the main thread carries on until the wake-up time
+            self.push(self.now + d, "resume", h)
+            h.suspend()
+            return
         if self.depth > 0:
             self.now = self.now + d
             return
@@ -171,6 +226,14 @@ class Sim:
                 raise EventCap()
             if kind == "internal":
                 payload(t)
+            elif kind == "resume":
+                if self.now < t:
+                    self.now = t
+                self.delivered.append([f2b(t), {"m": "resume"}])
+                payload.resume()
+                self.after_handler(payload)
+            elif self.handler is not None:
+                self.deferred.append((t, payload))        # the socket thread is busy (asleep in a handler)
             else:
                 if self.now < t:
                     self.now = t
@@ -195,6 +258,13 @@ class Sim:
         h = self.client.handlers.get(event) if self.client else None
         if h is None:
             return
+        if event == "s_call":
+            # (the only handler that sleeps is Look To's, inside WaitForUserRhythm.initialise_line)
+            ht = HandlerThread(self, lambda: h(data))
+            self.handler = ht
+            ht.resume()
+            self.after_handler(ht)
+            return
         self.depth += 1
         try:
             h(data)
@@ -202,6 +272,26 @@ class Sim:
             self.handler_crashes.append(type(e).__name__)
         finally:
             self.depth -= 1
+
+    def after_handler(self, ht):
+        """The handler thread handed back: finished, or asleep."""
+        if not ht.done:
+            return
+        ht.thread.join()
+        self.handler = None
+        if ht.exc is not None:
+            self.handler_crashes.append(type(ht.exc).__name__)
+        while self.deferred and self.handler is None:
+            t, m = self.deferred.pop(0)
+            self.deliver(m, t)
+
+    def abort_handlers(self):
+        self.aborting = True
+        ht = self.handler
+        if ht is not None and not ht.done:
+            ht.resume()
+            ht.thread.join()
+        self.handler = None
 
     # -- fake server ---------------------------------------------------------------------------
     def on_connect(self, url):
@@ -332,6 +422,7 @@ def run(scenario, make_agents=None):
         except Exception as e:
             crashed = type(e).__name__
     finally:
+        sim.abort_handlers()
         _time.time, _time.sleep, wtower.sleep, wreg.calculate_regression = saved
         fake_socketio.set_factory(None)
     return {"sim": sim, "crashed": crashed, "exited": exited}
